@@ -258,6 +258,39 @@ fn field_layer(ctx: &mut Ctx) {
             f.chk2("fn_mul", &la, &lb, guard(|| fn64::fn_mul(&la, &lb)), &((a * b) % n));
         }
     }
+    // --- operand pairs whose INTEGER product has a boundary shape (see sm2x::product_shapes): mod n directly, and mod p
+    // both on the stored limbs (raw Montgomery multiplication) and on field elements
+    {
+        let reps = f.ctx.n(4, 200);
+        let mut ps = f.ctx.prng("prodshape");
+        let mut pi = 0u64;
+        for _ in 0..reps {
+            for (name, a, b) in product_shapes(n, &mut ps) {
+                pi += 1;
+                if !f.ctx.mine(pi) {
+                    continue;
+                }
+                let (la, lb) = (lim(&a), lim(&b));
+                f.ctx.class("fn_mul_product_shape");
+                f.ctx.class(&format!("fn_mul:{}", name.split(':').next().unwrap()));
+                f.ctx.distinct("fn2", &[&r2::b32(&a), &r2::b32(&b)]);
+                f.chk2("fn_mul", &la, &lb, guard(|| fn64::fn_mul(&la, &lb)), &((&a * &b) % n));
+            }
+            for (name, a, b) in product_shapes(p, &mut ps) {
+                pi += 1;
+                if !f.ctx.mine(pi) {
+                    continue;
+                }
+                let (la, lb) = (lim(&a), lim(&b));
+                f.ctx.class("fp_mul_product_shape");
+                f.ctx.class(&format!("fp_mul:{}", name.split(':').next().unwrap()));
+                f.ctx.distinct("fp2", &[&r2::b32(&a), &r2::b32(&b)]);
+                // stored limbs a, b: Montgomery product a*b*R^-1
+                f.chk2("fp_mul", &la, &lb, guard(|| la.fp_mul(&lb)), &((&a * &b % p) * rpi % p));
+                f.chk2("fp_mont_mul", &la, &lb, guard(|| hk::fp_mont_mul(&la, &lb)), &((&a * &b % p) * rpi % p));
+            }
+        }
+    }
     // --- crafted Montgomery products landing on 0, 1, m-1, and exponentiations
     let ncraft = f.ctx.n(300, 30_000);
     for i in 0..ncraft {
@@ -564,15 +597,21 @@ fn group_layer(ctx: &mut Ctx) {
         let lk = lim(&k);
         same(ctx, "scalar_mul", "k=n+j_sweep", guard(|| g_lib.scalar_mul(&lk)), &r2::mul(&BigUint::from(j), &r2::g()), json!({"P": "G", "k": h(&lk)}));
         same(ctx, "g_mul", "k=n+j_sweep", guard(|| g_mul(&lk)), &r2::mul(&BigUint::from(j), &r2::g()), json!({"k": h(&lk)}));
+        // and n - j: the window recoding of scalars just below the order
+        let k = &c.n - j;
+        let lk = lim(&k);
+        let want = r2::neg(&r2::mul(&BigUint::from(j), &r2::g()));
+        same(ctx, "scalar_mul", "k=n-j_sweep", guard(|| g_lib.scalar_mul(&lk)), &want, json!({"P": "G", "k": h(&lk)}));
+        same(ctx, "g_mul", "k=n-j_sweep", guard(|| g_mul(&lk)), &want, json!({"k": h(&lk)}));
     }
-    ctx.exhaustive("scalars n+j for j in 0..=300 on G", true);
+    ctx.exhaustive("scalars n+j and n-j for j in 0..=300 on G", true);
 }
 
 pub fn run(ctx: &mut Ctx) {
     for (n, ok) in r2::selftest() {
         ctx.selftest(&n, ok);
     }
-    ctx.require(&["fp_add", "fp_sub", "fp_mul", "fp_sqr", "fp_double", "fp_triple", "fp_neg", "fp_div2", "fp_inv", "fp_pow", "fp_sqrt_residue", "fp_sqrt_nonresidue", "fp_to_mont", "fp_from_mont", "fn_add", "fn_sub", "fn_mul", "fn_pow", "fn_inv", "u256_primitives", "u512_primitives", "fp_mont_mul_carry_out_of_2^512", "fp_mul_product=0", "fp_mul_product=1", "fp_mul_product=m-1", "table_entry", "single_byte_scalar", "P_ne_Q", "P_eq_Q_same_repr", "P_eq_Q_diff_Z", "P_eq_negQ_same_Z", "P_eq_negQ_diff_Z", "infinity_canonical", "infinity_arbitrary_XY", "k=0", "k=n", "k=n+1", "k=n+small", "k=2^256-1", "k=random", "k=sparse_limbs", "k=n+j_sweep", "consecutive_negated_base", "consecutive_same_point_other_Z", "crafted_stored_Z_limbs", "to_affine_point", "predicates", "predicates_offcurve", "from_byte"]);
+    ctx.require(&["fp_add", "fp_sub", "fp_mul", "fp_sqr", "fp_double", "fp_triple", "fp_neg", "fp_div2", "fp_inv", "fp_pow", "fp_sqrt_residue", "fp_sqrt_nonresidue", "fp_to_mont", "fp_from_mont", "fn_add", "fn_sub", "fn_mul", "fn_pow", "fn_inv", "u256_primitives", "u512_primitives", "fp_mont_mul_carry_out_of_2^512", "fp_mul_product=0", "fp_mul_product=1", "fp_mul_product=m-1", "fn_mul_product_shape", "fp_mul_product_shape", "table_entry", "single_byte_scalar", "P_ne_Q", "P_eq_Q_same_repr", "P_eq_Q_diff_Z", "P_eq_negQ_same_Z", "P_eq_negQ_diff_Z", "infinity_canonical", "infinity_arbitrary_XY", "k=0", "k=n", "k=n+1", "k=n+small", "k=2^256-1", "k=random", "k=sparse_limbs", "k=n+j_sweep", "k=n-j_sweep", "consecutive_negated_base", "consecutive_same_point_other_Z", "crafted_stored_Z_limbs", "to_affine_point", "predicates", "predicates_offcurve", "from_byte"]);
     field_layer(ctx);
     table_layer(ctx);
     group_layer(ctx);
